@@ -184,7 +184,7 @@ def check(P, rep):
         pf = ProofFacts(g, proof, D)
         check_proof_ok(rep, 'C03.R3', g, pf, [(e.node, e.describe(), esite(g, e)) for e in effs], lambda d: d.split('(')[0][:24])
         check_sig_loop(rep, 'C03.R3', g, pf)
-        others = [e for e in state_effects(g) if e not in effs]
+        others = [e for e in state_effects(g) if e not in effs and not is_bookkeeping(e, GATEWAY_KEYS)]
         rep.check(not others, 'C03.R4', 'rotate_signers:no-other-effects', 'rotate_signers has no effect besides the rotation writes and event', entry_id(g),
                   '; '.join(x.describe() for x in others)[:200])
     else:
